@@ -57,7 +57,8 @@ CHECKS = {
     "C06": _c("exploration",
               "Deductive (all sizes): is_shaded, is_pointfree and the whole region bookkeeping of sub_mesh_pattern (grid lines, preconditions of the region tests, "
               "'cell shaded iff the rectangle of original cells is fully shaded and point free').  Bounded: sub-pattern vs geometric definition and as the strongest "
-              "implied pattern; soundness of every reported mesh-in-mesh occurrence against all occurrences in all permutations up to length 5/6.", _BNOTE,
+              "implied pattern; soundness of every reported mesh-in-mesh occurrence (smaller pattern a MeshPatt or a Vincular / Covincular / Bivincular instance) against all "
+              "occurrences in all permutations up to length 5/6; contains / avoids with 0-3 patterns vs the single listings.", _BNOTE,
               "deductive contracts (pyvc/z3) for the region bookkeeping + bounded run-time contracts vs region definition and containment sets"),
     "C07": _c("other",
               "Interleavings are NOT enumerated or proved. Structural lock-ownership obligations O1-O4 (every write to the shared cache or anything reachable from it "
@@ -74,7 +75,8 @@ CHECKS = {
     "C09": _c("exploration",
               "Deductive: standardisation (unique order-isomorphic permutation, ties left to right) from the stable-sort axiom, validated constructor (accepts exactly the "
               "bijections), identity / monotone / one_based constructors, purity of the memoised helper.  Bounded: generators, rank/unrank over all ranks below sum n! "
-              "(n<=7/9), all notations incl. boundary lengths around 10, mesh rank/unrank.", _BNOTE,
+              "(n<=7/9), standardisation of 15 kinds of values (incl. values that are equal and hash-equal but ordered differently) under a shared memo, all notations incl. "
+              "boundary lengths around 10, mesh rank/unrank.", _BNOTE,
               "deductive contracts for standardisation and constructors + bounded run-time contracts over full rank ranges"),
     "C10": _c("exploration",
               "Deductive (unbounded lengths): direct/skew sum (arity 1-3), compose (2-3), __call__, insert (all optional-argument shapes), remove/remove_element, the four "
@@ -85,14 +87,15 @@ CHECKS = {
               "Deductive (unbounded): 14 positional listings as definitional filters, left-to-right and right-to-left records, inversions / non-inversions as "
               "lexicographically sorted complete pair listings, strong fixed points, 30 count/list wrappers (count = len(listing)), monotonicity tests, is_involution. "
               "Bounded: every statistic and table entry BY NAME against independent definitions on all perms <=7/8 and block-structured perms of length 9-24, holeyness on seeded "
-              "perms of length 8-12 vs all 2^n position sets, fresh-result check (callers mutating returned containers), distributions, preservation tools.", _BNOTE,
+              "perms of length 8-12 vs all 2^n position sets, orders beyond 2^53 (prescribed cycle types), fresh-result check (callers mutating returned containers), "
+              "distributions, preservation tools.", _BNOTE,
               "deductive listing contracts (pyvc/z3) + bounded run-time contracts vs independent definitions"),
     "C12": _c("exploration",
               "Deductive (all lengths): stack_sort, pop_stack_sort, bubble_sort and their recursive helpers are proved equal to a non-recursive description of one pass of "
               "the device (stack discipline as a pairwise order condition with ghost position maps; reversal of the maximal decreasing runs; min(prefix maximum, next entry)), "
               "each with an explicit inverse witness for 'the result is a permutation'; the sortable predicates are 'the operator's output (k passes) is the identity'; _is_sorted. "
               "quick_sort under an ASSUMED contract.  Bounded: sorting operators vs explicit device simulations (all perms <=7/8, seeded 9-14, block-structured 9-20), pattern "
-              "characterisations, pass counts, Simion-Schmidt bijection on full domains up to n=8/9, families.",
+              "characterisations, pass counts (also > 1000 passes), Simion-Schmidt bijection on full domains up to n=8/9, families.",
               _BNOTE + "; Skolem spec functions RUN-DECOMPOSITION / PREFIX-ARGMAX / NEXT-GREATER; partial correctness of the recursive helpers",
               "deductive contracts (pyvc/z3) for three sorting operators + bounded run-time contracts vs device simulations"),
     "C13": _c("exploration",
@@ -132,7 +135,8 @@ CHECKS = {
               "bounded run-time contracts vs spec predicates + deductive helper contracts"),
     "C20": _c("exploration",
               "No deductive part (files are outside the subset).  All write/read sequences of length <=3/4 in temp directories, malformed files, automaton DB sequences with "
-              "exact language equivalence, shipped data partition check: run-time contracts on the real functions, bounded.", _BNOTE,
+              "exact language equivalence, odd data-set names with decoy files, raw JSON round trips of non-standard sequences, shipped data partition check: run-time contracts on "
+              "the real functions, bounded.", _BNOTE,
               "bounded run-time contracts: exhaustive short operation sequences on real files + exact automata equivalence"),
 }
 NOT_APPLICABLE = {}
